@@ -69,6 +69,14 @@ def check_kernel(sc):
         hh = H[:, None, :].expand(-1, A.shape[0], -1).reshape(-1, sc["nh"])
         aa = A[None, :, :].expand(H.shape[0], -1, -1).reshape(-1, sc["na"])
         pv = rbm.prob_v_given_ha(hh.clone(), aa.clone()).double()
+        # effective energy with the auxiliary configuration given explicitly: -log sum_h w(v, h, a)
+        am_ = R.net_from_case(sc["am"])
+        lw3 = R.joint_logw_purif(am_, V, H, A)
+        for ai in range(A.shape[0]):
+            e_lib = rbm.effective_energy(V.clone(), A[ai].clone().expand(V.shape[0], -1)).double()
+            e_ref = -torch.logsumexp(lw3[:, :, ai], dim=1)
+            require(bool(torch.all((e_lib - e_ref).abs() <= 1e-7 * (1 + e_ref.abs()))), "kernel:effective_energy(v,a)",
+                    "effective_energy(v, a) with explicit auxiliary units is not -log of the hidden-unit marginal of the joint weight")
     else:
         Plat = Ph
         pv = rbm.prob_v_given_h(H.clone()).double()
